@@ -586,9 +586,10 @@ class LinuxEnvironment(object):
             self.mmap_current += (len_ + 0x1000) & ~0xfff
 
         all_mem = vmmngr.get_all_memory()
+        # An empty mapping still occupies its address
         mapped = interval(
             [
-                (start, start + info["size"] - 1)
+                (start, start + max(info["size"], 1) - 1)
                 for start, info in viewitems(all_mem)
             ]
         )
